@@ -167,8 +167,15 @@ def alias_recipe(r, rng):
     return r
 
 
+IDENTS = {'print': print, 'len': len, 'deque': collections.deque, 'OrderedDict': collections.OrderedDict}
+# the end-of-line note the bundled printers attach to such values on their own
+IDENT_NOTES = {'print': 'built-in function', 'len': 'built-in function', 'deque': 'class', 'OrderedDict': 'class'}
+
+
 def _build(r, env=None):
     k = r[0]
+    if k == 'ident':
+        return IDENTS[r[1]]
     if k == 'int':
         return int(r[1])
     if k == 'float':
